@@ -129,6 +129,11 @@ MUTANTS = [
      "CFG.generate: a production whose codomain merely CONTAINS the tag is applied"),
 ]
 DISABLED = {"m14", "m15", "m16"}
+# changes under which every property still holds: the check must stay CLEAN (soundness)
+EXPECT_CLEAN = {
+    "m08": "refactor: foliate takes the other, equally legal, side when a box can pass on both",
+    "m22": "equivalent for gates on <= 2 qubits (source == offset needs a third operand), i.e. on the supported gate set",
+}
 
 
 def scratch_copy():
@@ -163,8 +168,10 @@ def one(mid, prop, apply_fn, what):
     try:
         apply_fn(repo)
         code, lines, tail = run_check(prop, repo, out)
-        verdict, detail = "MISSED", ""
-        if code == 1 and lines:
+        verdict, detail = ("CLEAN-AS-EXPECTED" if mid in EXPECT_CLEAN and code == 0 else "MISSED"), ""
+        if code == 1 and lines and mid in EXPECT_CLEAN:
+            verdict, detail = "FALSE-ALARM", tail[-400:]
+        elif code == 1 and lines:
             rel = lines[0].split("replay=")[1].strip()
             src = os.path.join(VERIF, rel)
             if not os.path.exists(os.path.join(out, rel)) and os.path.exists(src):
@@ -210,6 +217,6 @@ def main(args):
         except Exception as err:
             results[mid] = "ERROR %s" % err
             print(mid, results[mid])
-    missed = [m for m, v in results.items() if v != "CAUGHT"]
+    missed = [m for m, v in results.items() if v not in ("CAUGHT", "CLEAN-AS-EXPECTED")]
     print("mutants: %d run, %d caught, not caught: %s" % (len(results), len(results) - len(missed), missed))
     return 0 if not missed else 4
